@@ -82,9 +82,6 @@ Definition hue_formula (H : Q) : Q :=
 Lemma logical_to_raw_Q_hue : forall c, c0 (logical_to_raw_Q c) = hue_formula (c0 c).
 Proof. reflexivity. Qed.
 
-Lemma py_fmod_Q_small : forall x y, 0 < y -> 0 <= x -> x < y -> py_fmod_Q x y == x.
-Proof. exact qmod_small. Qed.
-
 (* degrees H of a raw hue x in 0..65535 convert back to x (65535 = 0) *)
 Lemma hue_back : forall H x, 0 <= x -> x <= 65535 -> H == x / 65535 * 360 ->
   hue_equiv (param_16_Q (hue_formula H)) (param_16_Q x).
@@ -336,16 +333,6 @@ Proof.
   intros m r Hm V. unfold switch_Q. rewrite <- Hm.
   rewrite (g_switch_same_mode Q apply_conv_Q time_raw_Q time_logical_Q r).
   split; [exact V |]. split; [apply sent_rel_refl | apply delay_close_refl].
-Qed.
-
-Lemma py_fmod_Q_range : forall x y, 0 < y -> 0 <= py_fmod_Q x y /\ py_fmod_Q x y < y.
-Proof.
-  intros x y Hy. unfold py_fmod_Q. destruct (Qfloor_bounds (x / y)) as [F1 F2].
-  set (f := inject_Z (Qfloor (x / y))) in *.
-  assert (E : x == (x / y) * y) by (field; lra).
-  split.
-  - assert (f * y <= (x / y) * y) by (apply Qmult_le_compat_r; lra). lra.
-  - assert ((x / y) * y < (f + 1) * y) by (apply Qmult_lt_compat_r; lra). lra.
 Qed.
 
 Lemma hue_formula_range : forall H, 0 <= hue_formula H /\ hue_formula H <= 65535.
